@@ -209,6 +209,8 @@ def py_expr(e, base="self"):
         return "%s[%d]" % (_operand(e[1], base), e[2])
     if k == "size":
         return _py_path(base, e[1], None) + ".size"
+    if k == "sel":
+        return "%s[%s]" % (_py_path(base, e[1], None), py_expr(e[2], base))
     if k == "sum":
         return _py_path(base, e[1], None) + ".sum"
     if k == "product":
